@@ -1,1 +1,740 @@
-// harness module for C18 (not written yet)
+// Verification harness for C18 (a monitoring subscriber reconstructs the exact Adj-RIB-In).
+// Compiled into rustybgpd's unit-test binary only with
+// `--cfg osrg_rustybgp_verif --cfg verif_c18|verif_all`; child module of `crate::event::verif_event`.
+//
+// A case (lean/Rbgp/Monitor/Codec.lean syntax)
+//   (case (cfg <nshards> <gran> <limit>) (threads (w <op>*)|(s <op>*) ...) (sched <n>*))
+// is run against a REAL `TableManager`: one OS thread per case thread, all of them driven by a
+// deterministic scheduler that lets exactly one thread run between two scheduling points.  The
+// scheduling points inside the code under test are the cfg-guarded
+// `table_manager::verif_sched::point` calls (before every shard-lock acquisition, after every
+// subscriber-list load, after `subscribe`'s rcu); the harness adds one before every operation
+// (and between `unregister_peer` and `peer_down` of a session teardown).
+//
+//   writer thread i (peer 10.0.0.(i+1)):  up | down | (ins k j pid a) | (rem k j pid) | sr
+//                                         | (pol none|reject|tag) | gdown | purge
+//   subscriber thread:                    (sub t|f) | unsub
+//
+// Observation: per-thread return values, and per subscription the received `BgpEvent` stream
+// projected per universe key (keys in order of first mention in the case), plus the final
+// `iter_reach` / `iter_reach_post` of every shard, plus what the real bmp.rs consumer functions
+// (`apply_snapshot`, `track_peer_up/down`) make of the stream.
+#![allow(dead_code)]
+
+use std::net::{IpAddr, Ipv4Addr};
+use std::sync::atomic::AtomicU64;
+use std::sync::{Arc, Condvar, Mutex, OnceLock};
+use std::time::Duration;
+
+use rustybgp_packet::{self as packet, Family, bgp};
+use rustybgp_table as table;
+
+use crate::bmp::verif_c18_bmp::Consumer;
+use crate::table_manager::{
+    BgpEvent, PeerDownData, PeerUpData, Subscription, TableManager, verif_sched,
+};
+
+#[path = "/verif/harness/common/sexp.rs"]
+mod sexp;
+use sexp::Term;
+
+const MAX_SHARDS: usize = 3;
+const MAX_IDX: usize = 3;
+const MAX_PID: u64 = 3;
+const MAX_THREADS: usize = 5;
+const OP: u32 = 0; // harness-level scheduling point (before an operation)
+
+// ---------------------------------------------------------------- case
+#[derive(Clone, Copy, PartialEq, Eq, Hash, Debug)]
+struct Key {
+    peer: usize,
+    shard: usize,
+    idx: usize,
+    pid: u32,
+}
+
+#[derive(Clone, Copy, Debug)]
+enum Pol {
+    None,
+    Reject,
+    Tag,
+}
+
+#[derive(Clone, Debug)]
+enum Op {
+    Up,
+    Down,
+    Ins(usize, usize, u32, u32),
+    Rem(usize, usize, u32),
+    Sr,
+    Pol(Pol),
+    GDown,
+    Purge,
+    Sub(bool),
+    Unsub,
+}
+
+struct Case {
+    nshards: usize,
+    gran: u8,
+    limit: u32,
+    threads: Vec<(bool, Vec<Op>)>, // (is_writer, ops)
+    sched: Vec<usize>,
+}
+
+fn parse_case(line: &str) -> Option<Case> {
+    let t = Term::parse(line)?;
+    let [cfg, threads, sched] = t.tagged("case")? else { return None };
+    let [n, g, l] = cfg.tagged("cfg")? else { return None };
+    let (nshards, gran, limit) = (n.as_u64()? as usize, g.as_u64()?, l.as_u64()?);
+    if nshards == 0 || nshards > MAX_SHARDS || gran > 1 || limit > 9 {
+        return None;
+    }
+    let mut ths = Vec::new();
+    for th in threads.tagged("threads")? {
+        let l = th.as_list()?;
+        let kind = l.first()?.as_atom()?;
+        let writer = match kind {
+            "w" => true,
+            "s" => false,
+            _ => return None,
+        };
+        let mut ops = Vec::new();
+        for o in &l[1..] {
+            let op = match (o.head()?, o) {
+                ("up", Term::Atom(_)) => Op::Up,
+                ("down", Term::Atom(_)) => Op::Down,
+                ("sr", Term::Atom(_)) => Op::Sr,
+                ("gdown", Term::Atom(_)) => Op::GDown,
+                ("purge", Term::Atom(_)) => Op::Purge,
+                ("unsub", Term::Atom(_)) => Op::Unsub,
+                ("ins", _) => {
+                    let [k, j, p, a] = o.tagged("ins")? else { return None };
+                    let (k, j, p, a) = (k.as_u64()?, j.as_u64()?, p.as_u64()?, a.as_u64()?);
+                    if k as usize >= nshards || j as usize >= MAX_IDX || p >= MAX_PID || a >= 1000 {
+                        return None;
+                    }
+                    Op::Ins(k as usize, j as usize, p as u32, a as u32)
+                }
+                ("rem", _) => {
+                    let [k, j, p] = o.tagged("rem")? else { return None };
+                    let (k, j, p) = (k.as_u64()?, j.as_u64()?, p.as_u64()?);
+                    if k as usize >= nshards || j as usize >= MAX_IDX || p >= MAX_PID {
+                        return None;
+                    }
+                    Op::Rem(k as usize, j as usize, p as u32)
+                }
+                ("pol", _) => {
+                    let [x] = o.tagged("pol")? else { return None };
+                    Op::Pol(match x.as_atom()? {
+                        "none" => Pol::None,
+                        "reject" => Pol::Reject,
+                        "tag" => Pol::Tag,
+                        _ => return None,
+                    })
+                }
+                ("sub", _) => {
+                    let [w] = o.tagged("sub")? else { return None };
+                    Op::Sub(w.as_bool()?)
+                }
+                _ => return None,
+            };
+            let is_sub_op = matches!(op, Op::Sub(_) | Op::Unsub);
+            if is_sub_op == writer {
+                return None;
+            }
+            ops.push(op);
+        }
+        ths.push((writer, ops));
+    }
+    if ths.is_empty() || ths.len() > MAX_THREADS {
+        return None;
+    }
+    let mut sc = Vec::new();
+    for s in sched.tagged("sched")? {
+        sc.push(s.as_u64()? as usize);
+    }
+    Some(Case { nshards, gran: gran as u8, limit: limit as u32, threads: ths, sched: sc })
+}
+
+/// Keys in order of first mention (ins / rem) in the case.
+fn universe(c: &Case) -> Vec<Key> {
+    let mut u: Vec<Key> = Vec::new();
+    for (tid, (_, ops)) in c.threads.iter().enumerate() {
+        for o in ops {
+            let k = match o {
+                Op::Ins(k, j, p, _) => Key { peer: tid, shard: *k, idx: *j, pid: *p },
+                Op::Rem(k, j, p) => Key { peer: tid, shard: *k, idx: *j, pid: *p },
+                _ => continue,
+            };
+            if !u.contains(&k) {
+                u.push(k);
+            }
+        }
+    }
+    u
+}
+
+// ---------------------------------------------------------------- encodings
+fn peer_addr(p: usize) -> IpAddr {
+    IpAddr::V4(Ipv4Addr::new(10, 0, 0, (p + 1) as u8))
+}
+fn peer_of(a: &IpAddr) -> Option<usize> {
+    match a {
+        IpAddr::V4(v) => {
+            let o = v.octets();
+            if o[0] == 10 && o[1] == 0 && o[2] == 0 && o[3] >= 1 { Some(o[3] as usize - 1) } else { None }
+        }
+        _ => None,
+    }
+}
+fn nlri_of_octet(x: u8) -> packet::Nlri {
+    packet::Nlri::V4(bgp::Ipv4Net { addr: Ipv4Addr::new(10, x, 0, 0), mask: 16 })
+}
+fn octet_of(n: &packet::Nlri) -> Option<u8> {
+    match n {
+        packet::Nlri::V4(n) if n.mask == 16 && n.addr.octets()[0] == 10 => Some(n.addr.octets()[1]),
+        _ => None,
+    }
+}
+fn new_source(p: usize) -> Arc<table::Source> {
+    Arc::new(table::Source::new(
+        peer_addr(p),
+        IpAddr::V4(Ipv4Addr::new(10, 0, 0, 254)),
+        65010 + p as u32,
+        65001,
+        Ipv4Addr::new(10, 0, 0, (p + 1) as u8),
+        table::PeerRole::Ebgp,
+    ))
+}
+fn attrs_of(a: u32) -> Arc<Vec<packet::Attribute>> {
+    Arc::new(vec![
+        packet::Attribute::new_with_value(packet::Attribute::ORIGIN, 0).unwrap(),
+        packet::Attribute::new_with_value(packet::Attribute::MULTI_EXIT_DESC, a).unwrap(),
+    ])
+}
+/// attribute list -> model value: MED (+1000 when the `tag` policy added LOCAL_PREF)
+fn val_of(attrs: &[packet::Attribute]) -> u64 {
+    let med = attrs
+        .iter()
+        .find(|a| a.code() == packet::Attribute::MULTI_EXIT_DESC)
+        .and_then(|a| a.value());
+    let lp = attrs.iter().any(|a| a.code() == packet::Attribute::LOCAL_PREF);
+    match med {
+        Some(m) => m as u64 + if lp { 1000 } else { 0 },
+        None => 9999,
+    }
+}
+fn policy_of(p: Pol) -> Option<Arc<table::PolicyAssignment>> {
+    match p {
+        Pol::None => None,
+        Pol::Reject => Some(Arc::new(table::PolicyAssignment {
+            name: Arc::from("verif"),
+            disposition: table::Disposition::Reject,
+            policies: vec![],
+            needs_rpki: false,
+        })),
+        Pol::Tag => Some(Arc::new(table::PolicyAssignment {
+            name: Arc::from("verif"),
+            disposition: table::Disposition::Accept,
+            policies: vec![Arc::new(table::Policy {
+                name: Arc::from("p"),
+                statements: vec![Arc::new(table::Statement {
+                    name: Arc::from("s"),
+                    conditions: vec![],
+                    disposition: Some(table::Disposition::Accept),
+                    actions: table::Actions {
+                        local_pref: Some(table::LocalPrefAction { value: 777 }),
+                        ..Default::default()
+                    },
+                })],
+            })],
+            needs_rpki: false,
+        })),
+    }
+}
+
+/// For `n` shards: `tab[k][j]` = second octet x such that 10.x.0.0/16 is dealt to shard k by the
+/// real `TableManager::dealer` (found by inserting into a scratch manager and looking where it went).
+fn prefix_table(n: usize) -> &'static Vec<Vec<u8>> {
+    static TABS: OnceLock<Vec<Vec<Vec<u8>>>> = OnceLock::new();
+    let all = TABS.get_or_init(|| {
+        (1..=MAX_SHARDS)
+            .map(|n| {
+                let tm = TableManager::new(n);
+                let src = new_source(0);
+                let mut tab: Vec<Vec<u8>> = vec![Vec::new(); n];
+                for x in 0..=255u8 {
+                    tm.insert_route(
+                        src.clone(),
+                        Family::IPV4,
+                        packet::PathNlri::new(nlri_of_octet(x)),
+                        Some(bgp::Nexthop::V4(Ipv4Addr::new(10, 0, 0, 1))),
+                        attrs_of(1),
+                        None,
+                        0,
+                    );
+                    for (k, sh) in tm.shards.iter().enumerate() {
+                        let t = sh.lock().unwrap();
+                        let here = t.rtable.iter_reach(Family::IPV4).any(|r| octet_of(&r.net.nlri) == Some(x));
+                        if here && tab[k].len() < MAX_IDX {
+                            tab[k].push(x);
+                        }
+                    }
+                    if tab.iter().all(|v| v.len() == MAX_IDX) {
+                        break;
+                    }
+                }
+                assert!(tab.iter().all(|v| v.len() == MAX_IDX), "prefix table incomplete");
+                tab
+            })
+            .collect()
+    });
+    &all[n - 1]
+}
+
+// ---------------------------------------------------------------- deterministic scheduler
+#[derive(Clone, Copy, PartialEq, Debug)]
+enum Park {
+    Starting,
+    Running,
+    AtOp,
+    AtRegistered,
+    AtLock(usize),
+    AtLoaded,
+    Finished,
+}
+
+struct ThState {
+    park: Park,
+    granted: bool,
+    held: Option<usize>,
+    dirty: bool,
+    panicked: bool,
+}
+
+struct SchedState {
+    th: Vec<ThState>,
+    gran: u8,
+    shard_addrs: Vec<usize>,
+}
+
+struct Sched {
+    m: Mutex<SchedState>,
+    cv: Condvar,
+}
+
+impl Sched {
+    /// Called by a worker at a scheduling point.  Decides (same rule as the Lean model) whether
+    /// the point is an actual yield; if so parks until the controller grants the next segment.
+    fn point(&self, tid: usize, kind: u32, arg: usize) {
+        let mut g = self.m.lock().unwrap();
+        let gran = g.gran;
+        let shard = if kind == verif_sched::LOCK {
+            Some(g.shard_addrs.iter().position(|a| *a == arg).expect("unknown shard mutex"))
+        } else {
+            None
+        };
+        let st = &mut g.th[tid];
+        let (yields, park) = match kind {
+            OP => {
+                st.dirty = false;
+                st.held = None;
+                (true, Park::AtOp)
+            }
+            verif_sched::REGISTERED => {
+                st.dirty = false;
+                st.held = None;
+                (true, Park::AtRegistered)
+            }
+            verif_sched::LOCK => {
+                st.held = None; // the previous shard guard (if any) has been dropped
+                (gran == 1 || st.dirty, Park::AtLock(shard.unwrap()))
+            }
+            verif_sched::LOADED => (gran == 1, Park::AtLoaded),
+            _ => (false, Park::Running),
+        };
+        if yields {
+            st.park = park;
+            self.cv.notify_all();
+            while !g.th[tid].granted {
+                g = self.cv.wait(g).unwrap();
+            }
+            g.th[tid].granted = false;
+        }
+        if let Some(k) = shard {
+            let st = &mut g.th[tid];
+            st.held = Some(k);
+            st.dirty = true;
+        }
+    }
+
+    fn finish(&self, tid: usize, panicked: bool) {
+        let mut g = self.m.lock().unwrap();
+        g.th[tid].park = Park::Finished;
+        g.th[tid].held = None;
+        g.th[tid].panicked = panicked;
+        self.cv.notify_all();
+    }
+
+    /// Controller loop; returns false on a hang (scheduler bug or real deadlock).
+    fn drive(&self, schedule: &[usize]) -> bool {
+        let mut it = schedule.iter();
+        let mut g = self.m.lock().unwrap();
+        loop {
+            // wait until every thread is parked or finished
+            let deadline = std::time::Instant::now() + Duration::from_secs(20);
+            while g.th.iter().any(|t| matches!(t.park, Park::Starting | Park::Running)) {
+                let now = std::time::Instant::now();
+                if now >= deadline {
+                    return false;
+                }
+                let (gg, _) = self.cv.wait_timeout(g, deadline - now).unwrap();
+                g = gg;
+            }
+            let enabled: Vec<usize> = (0..g.th.len())
+                .filter(|&i| match g.th[i].park {
+                    Park::Finished => false,
+                    Park::AtLock(k) => !g
+                        .th
+                        .iter()
+                        .enumerate()
+                        .any(|(j, u)| j != i && u.park == Park::AtLoaded && u.held == Some(k)),
+                    _ => true,
+                })
+                .collect();
+            if enabled.is_empty() {
+                return g.th.iter().all(|t| t.park == Park::Finished);
+            }
+            let n = it.next().copied().unwrap_or(0);
+            let t = enabled[n % enabled.len()];
+            g.th[t].park = Park::Running;
+            g.th[t].granted = true;
+            self.cv.notify_all();
+        }
+    }
+}
+
+// ---------------------------------------------------------------- workers
+struct SubRec {
+    sub: Subscription,
+    want: bool,
+    live: bool,
+}
+
+struct ThreadOut {
+    rets: Vec<&'static str>,
+    subs: Vec<SubRec>,
+}
+
+fn peer_up_data(p: usize) -> PeerUpData {
+    let open = bgp::Message::Open(bgp::Open {
+        as_number: 65010 + p as u32,
+        holdtime: packet::HoldTime::DISABLED,
+        router_id: u32::from(Ipv4Addr::new(10, 0, 0, (p + 1) as u8)),
+        capability: vec![],
+    });
+    PeerUpData {
+        peer_addr: peer_addr(p),
+        peer_asn: 65010 + p as u32,
+        peer_id: u32::from(Ipv4Addr::new(10, 0, 0, (p + 1) as u8)),
+        uptime: 0,
+        local_addr: IpAddr::V4(Ipv4Addr::new(10, 0, 0, 254)),
+        local_port: 179,
+        remote_port: 10000,
+        sent_open: open.clone(),
+        received_open: open,
+    }
+}
+fn peer_down_data(p: usize) -> PeerDownData {
+    PeerDownData {
+        peer_addr: peer_addr(p),
+        peer_asn: 65010 + p as u32,
+        peer_id: u32::from(Ipv4Addr::new(10, 0, 0, (p + 1) as u8)),
+        uptime: 0,
+        reason: packet::bmp::PeerDownReason::RemoteUnexpected,
+    }
+}
+
+fn run_ops(tid: usize, ops: &[Op], limit: u32, tables: &TableManager, sched: &Sched, tab: &[Vec<u8>]) -> ThreadOut {
+    let mut out = ThreadOut { rets: Vec::new(), subs: Vec::new() };
+    // session objects (PeerSession::new creates a Source and fresh prefix counters per session)
+    let mut source = new_source(tid);
+    let mut counter = Arc::new(AtomicU64::new(0));
+    let nh = Some(bgp::Nexthop::V4(Ipv4Addr::new(10, 0, 0, (tid + 1) as u8)));
+    for op in ops {
+        sched.point(tid, OP, 0);
+        let mut ret = "-";
+        match op {
+            Op::Up => tables.peer_up(peer_up_data(tid)),
+            Op::Down | Op::GDown => {
+                // PeerSession teardown: unregister_peer, then peer_down (event/mod.rs)
+                if matches!(op, Op::Down) {
+                    tables.unregister_peer(peer_addr(tid), &[Family::IPV4], &[]);
+                } else {
+                    tables.unregister_peer(peer_addr(tid), &[], &[Family::IPV4]);
+                }
+                sched.point(tid, OP, 0);
+                tables.peer_down(peer_down_data(tid));
+                source = new_source(tid);
+                counter = Arc::new(AtomicU64::new(0));
+            }
+            Op::Ins(k, j, pid, a) => {
+                let net = packet::PathNlri { path_id: *pid, nlri: nlri_of_octet(tab[*k][*j]) };
+                let pl = if limit > 0 { Some((limit, counter.clone())) } else { None };
+                let exceeded = tables.insert_route(source.clone(), Family::IPV4, net, nh, attrs_of(*a), pl, 0);
+                ret = if exceeded { "limit" } else { "ok" };
+            }
+            Op::Rem(k, j, pid) => {
+                let net = packet::PathNlri { path_id: *pid, nlri: nlri_of_octet(tab[*k][*j]) };
+                let pc = if limit > 0 { Some(counter.clone()) } else { None };
+                tables.remove_route(source.clone(), Family::IPV4, net, pc, 0);
+            }
+            Op::Sr => tables.soft_reset_in(peer_addr(tid)),
+            Op::Pol(p) => tables.import_policy.store(policy_of(*p)),
+            Op::Purge => tables.drop_stale_families(peer_addr(tid), &[Family::IPV4]),
+            Op::Sub(want) => {
+                let sub = tables.subscribe(*want);
+                out.subs.push(SubRec { sub, want: *want, live: true });
+            }
+            Op::Unsub => {
+                if let Some(r) = out.subs.iter_mut().rev().find(|r| r.live) {
+                    tables.unsubscribe(r.sub.id);
+                    r.live = false;
+                }
+            }
+        }
+        out.rets.push(ret);
+    }
+    out
+}
+
+// ---------------------------------------------------------------- observation
+fn opt_t(v: Option<u64>) -> Term {
+    match v {
+        Some(v) => Term::nat(v),
+        None => Term::atom("none"),
+    }
+}
+
+fn run_case(line: &str) -> Option<String> {
+    let case = parse_case(line)?;
+    let uni = universe(&case);
+    let tab = prefix_table(case.nshards);
+    let key_of = |addr: &IpAddr, net: &packet::PathNlri| -> Option<usize> {
+        let peer = peer_of(addr)?;
+        let x = octet_of(&net.nlri)?;
+        let (mut shard, mut idx) = (None, None);
+        for (k, row) in tab.iter().enumerate() {
+            if let Some(j) = row.iter().position(|y| *y == x) {
+                shard = Some(k);
+                idx = Some(j);
+            }
+        }
+        let key = Key { peer, shard: shard?, idx: idx?, pid: net.path_id };
+        uni.iter().position(|u| *u == key)
+    };
+
+    let tables = Arc::new(TableManager::new(case.nshards));
+    let sched = Arc::new(Sched {
+        m: Mutex::new(SchedState {
+            th: (0..case.threads.len())
+                .map(|_| ThState { park: Park::Starting, granted: false, held: None, dirty: false, panicked: false })
+                .collect(),
+            gran: case.gran,
+            shard_addrs: tables.shards.iter().map(|s| s as *const _ as usize).collect(),
+        }),
+        cv: Condvar::new(),
+    });
+    let mut handles = Vec::new();
+    for (tid, (_, ops)) in case.threads.iter().enumerate() {
+        let (ops, tables, sched, limit) = (ops.clone(), tables.clone(), sched.clone(), case.limit);
+        handles.push(std::thread::spawn(move || {
+            let s2 = sched.clone();
+            verif_sched::HOOK.with(|h| {
+                *h.borrow_mut() = Some(Box::new(move |kind, arg| s2.point(tid, kind, arg)));
+            });
+            let r = std::panic::catch_unwind(std::panic::AssertUnwindSafe(|| {
+                run_ops(tid, &ops, limit, &tables, &sched, tab)
+            }));
+            verif_sched::HOOK.with(|h| *h.borrow_mut() = None);
+            sched.finish(tid, r.is_err());
+            r.ok()
+        }));
+    }
+    if !sched.drive(&case.sched) {
+        // leak the stuck threads; the case is reported, later cases use fresh objects
+        return Some("(hang)".into());
+    }
+    let mut outs = Vec::new();
+    for h in handles {
+        match h.join() {
+            Ok(Some(o)) => outs.push(o),
+            _ => return Some("(panic)".into()),
+        }
+    }
+
+    // final RIB
+    let mut extra = 0u64;
+    let mut rib: Vec<(Option<u64>, Option<u64>)> = vec![(None, None); uni.len()];
+    let (mut rows_pre, mut rows_post) = (0u64, 0u64);
+    for sh in tables.shards.iter() {
+        let t = sh.lock().unwrap();
+        for f in t.rtable.families().collect::<Vec<_>>() {
+            for r in t.rtable.iter_reach(f) {
+                rows_pre += 1;
+                match key_of(&r.source.remote_addr, &r.net) {
+                    Some(i) if f == Family::IPV4 => rib[i].0 = Some(val_of(&r.attr)),
+                    _ => extra += 1,
+                }
+            }
+            for r in t.rtable.iter_reach_post(f) {
+                rows_post += 1;
+                match key_of(&r.source.remote_addr, &r.net) {
+                    Some(i) if f == Family::IPV4 => rib[i].1 = Some(val_of(&r.attr)),
+                    _ => extra += 1,
+                }
+            }
+        }
+    }
+
+    // subscriptions
+    let mut subs_t = Vec::new();
+    for (tid, o) in outs.iter_mut().enumerate() {
+        for (nth, rec) in o.subs.iter_mut().enumerate() {
+            let mut ctl: Vec<Term> = Vec::new();
+            let mut fwd: Vec<Term> = Vec::new();
+            let mut hist: Vec<(Vec<Term>, Vec<Term>)> = vec![(Vec::new(), Vec::new()); uni.len()];
+            let mut consumer = Consumer::new();
+            let mut seen_eos = false;
+            while let Ok(ev) = rec.sub.rx.try_recv() {
+                match ev {
+                    BgpEvent::AdjRibIn(c) => {
+                        let v = c.attrs.as_ref().map(|a| val_of(a));
+                        for n in &c.nlris {
+                            match key_of(&c.source.remote_addr, n) {
+                                Some(i) if c.family == Family::IPV4 => {
+                                    hist[i].0.push(v.map(Term::nat).unwrap_or_else(|| Term::atom("w")))
+                                }
+                                _ => extra += 1,
+                            }
+                        }
+                        if rec.want && !seen_eos {
+                            consumer.snap_pre(c);
+                        }
+                    }
+                    BgpEvent::AdjRibInPost(c) => {
+                        let v = c.attrs.as_ref().map(|a| val_of(a));
+                        for n in &c.nlris {
+                            match key_of(&c.source.remote_addr, n) {
+                                Some(i) if c.family == Family::IPV4 => {
+                                    hist[i].1.push(v.map(Term::nat).unwrap_or_else(|| Term::atom("w")))
+                                }
+                                _ => extra += 1,
+                            }
+                        }
+                        if rec.want && !seen_eos {
+                            consumer.snap_post(c);
+                        }
+                    }
+                    BgpEvent::PeerUp(d) => match peer_of(&d.peer_addr) {
+                        Some(p) => {
+                            ctl.push(Term::tag("up", vec![Term::nat(p as u64)]));
+                            if !rec.want || seen_eos {
+                                consumer.peer_up(d.peer_addr);
+                                fwd.push(Term::tag("up", vec![Term::nat(p as u64)]));
+                            }
+                        }
+                        None => extra += 1,
+                    },
+                    BgpEvent::PeerDown(d) => match peer_of(&d.peer_addr) {
+                        Some(p) => {
+                            ctl.push(Term::tag("down", vec![Term::nat(p as u64)]));
+                            for (i, k) in uni.iter().enumerate() {
+                                if k.peer == p {
+                                    hist[i].0.push(Term::atom("d"));
+                                    hist[i].1.push(Term::atom("d"));
+                                }
+                            }
+                            if (!rec.want || seen_eos) && consumer.peer_down(d.peer_addr) {
+                                fwd.push(Term::tag("down", vec![Term::nat(p as u64)]));
+                            }
+                        }
+                        None => extra += 1,
+                    },
+                    BgpEvent::EndOfSnapshot => {
+                        ctl.push(Term::atom("eos"));
+                        seen_eos = true;
+                    }
+                    // Loc-RIB / Adj-RIB-Out / EOR events are not C18's subject
+                    _ => {}
+                }
+            }
+            let mut snap: Vec<(Option<u64>, Option<u64>)> = vec![(None, None); uni.len()];
+            for (addr, net, attrs) in consumer.dump_pre() {
+                match key_of(&addr, &net) {
+                    Some(i) => snap[i].0 = Some(val_of(&attrs)),
+                    None => extra += 1,
+                }
+            }
+            for (addr, net, attrs) in consumer.dump_post() {
+                match key_of(&addr, &net) {
+                    Some(i) => snap[i].1 = Some(val_of(&attrs)),
+                    None => extra += 1,
+                }
+            }
+            subs_t.push(Term::tag(
+                "sub",
+                vec![
+                    Term::nat(tid as u64),
+                    Term::nat(nth as u64),
+                    Term::boolean(rec.want),
+                    Term::boolean(rec.live),
+                    Term::tag("ctl", ctl),
+                    Term::tag(
+                        "hist",
+                        hist.into_iter().map(|(a, b)| Term::list(vec![Term::list(a), Term::list(b)])).collect(),
+                    ),
+                    Term::tag("snap", snap.into_iter().map(|(a, b)| Term::list(vec![opt_t(a), opt_t(b)])).collect()),
+                    Term::tag("fwd", fwd),
+                ],
+            ));
+        }
+    }
+    let rets = outs
+        .iter()
+        .map(|o| Term::list(o.rets.iter().map(|r| Term::atom(*r)).collect()))
+        .collect();
+    Some(
+        Term::tag(
+            "obs",
+            vec![
+                Term::tag("rets", rets),
+                Term::tag("subs", subs_t),
+                Term::tag("rib", rib.into_iter().map(|(a, b)| Term::list(vec![opt_t(a), opt_t(b)])).collect()),
+                Term::tag("rows", vec![Term::nat(rows_pre), Term::nat(rows_post)]),
+                Term::tag("extra", vec![Term::nat(extra)]),
+            ],
+        )
+        .to_string(),
+    )
+}
+
+#[test]
+fn verif_main() {
+    let (Ok(prop), Ok(inp), Ok(out)) =
+        (std::env::var("VERIF_PROP"), std::env::var("VERIF_IN"), std::env::var("VERIF_OUT"))
+    else {
+        return; // not invoked by /verif/check
+    };
+    if prop != "C18" {
+        return;
+    }
+    // a panic inside a worker thread is an observation; keep stderr readable
+    std::panic::set_hook(Box::new(|_| {}));
+    sexp::run_lines(&inp, &out, |l| {
+        let l = l.to_string();
+        std::panic::catch_unwind(move || run_case(&l).unwrap_or_else(|| "(bad-case)".into()))
+            .unwrap_or_else(|_| "(panic)".into())
+    });
+}
